@@ -560,7 +560,7 @@ func c08Literals(c *Ctx, rule string) {
 		}
 		return out
 	}
-	for _, spec := range []struct{ tok, want string }{{"STR", "t.Text"}, {"TRUE", "true"}, {"FALSE", "false"}} {
+	for _, spec := range []struct{ tok, want string }{{"STR", recvName(f) + ".Text"}, {"TRUE", "true"}, {"FALSE", "false"}} {
 		key := f.Name + "|" + spec.tok
 		cc := arms[spec.tok]
 		if cc == nil {
@@ -587,12 +587,12 @@ func c08Literals(c *Ctx, rule string) {
 		ok := false
 		detail := "no strconv conversion"
 		for _, call := range f.Calls(body, false, "strconv.Atoi") {
-			if len(call.Args) == 1 && exprKey(call.Args[0]) == "t.Text" {
+			if len(call.Args) == 1 && exprKey(call.Args[0]) == recvName(f)+".Text" {
 				ok = true
 			}
 		}
 		for _, call := range f.Calls(body, false, "strconv.ParseInt") {
-			if len(call.Args) == 3 && exprKey(call.Args[0]) == "t.Text" {
+			if len(call.Args) == 3 && exprKey(call.Args[0]) == recvName(f)+".Text" {
 				base := f.constOf(call.Args[1])
 				if base != nil && base.String() == "10" {
 					ok = true
@@ -605,7 +605,7 @@ func c08Literals(c *Ctx, rule string) {
 		errRet := false
 		ast.Inspect(body, func(y ast.Node) bool {
 			if r, isRet := y.(*ast.ReturnStmt); isRet && len(r.Results) == 2 {
-				if id, isId := ast.Unparen(r.Results[1]).(*ast.Ident); isId && id.Name == "err" {
+				if id, isId := ast.Unparen(r.Results[1]).(*ast.Ident); isId && !isNilIdent(f, id) && isErrorType(f.TypeOf(id)) {
 					errRet = true
 				}
 			}
@@ -633,7 +633,27 @@ func c08FreshDecodeTarget(c *Ctx, rule string) {
 	// does Decode assign on the NULL path?
 	storesNil := false
 	inspectBody(dec.Decl.Body, func(x ast.Node) bool {
-		if ifs, ok := x.(*ast.IfStmt); ok && exprKey(ifs.Cond) == "isNull" {
+		// the NULL marker, under whatever name: a boolean local that a read of the stream filled (&marker)
+		isMarker := func(e ast.Expr) bool {
+			id, ok := ast.Unparen(e).(*ast.Ident)
+			if !ok {
+				return false
+			}
+			if b, ok := dec.TypeOf(id).Underlying().(*types.Basic); !ok || b.Kind() != types.Bool {
+				return false
+			}
+			filled := false
+			ast.Inspect(dec.Decl.Body, func(y ast.Node) bool {
+				if u, ok := y.(*ast.UnaryExpr); ok && u.Op == token.AND {
+					if uid, ok := ast.Unparen(u.X).(*ast.Ident); ok && dec.ObjOf(uid) == dec.ObjOf(id) {
+						filled = true
+					}
+				}
+				return true
+			})
+			return filled
+		}
+		if ifs, ok := x.(*ast.IfStmt); ok && isMarker(ifs.Cond) {
 			ast.Inspect(ifs.Body, func(y ast.Node) bool {
 				if as, ok := y.(*ast.AssignStmt); ok {
 					for _, l := range as.Lhs {
